@@ -47,6 +47,11 @@ CORPUS = [
     # failing twin
     ([(False, [dict(callee=1), dict(callee=2)], None), (False, [dict(callee=3)], None), (False, [dict(callee=3)], None),
       (True, [], None)], {}),
+    # duplicate (cache_scope CSE) arriving while the first twin is evaluating its children (done, not yet resolved)
+    ([(False, [dict(callee=1, scope="CSE"), dict(callee=2)], None), (False, [dict(callee=3)], None), (False, [dict(callee=1, scope="CSE")], None),
+      (False, [], None)], {}),
+    ([(False, [dict(callee=1), dict(callee=2), dict(callee=2)], None), (False, [dict(callee=3), dict(callee=3)], None),
+      (False, [dict(callee=1, scope="CSE")], None), (False, [], None)], {}),
     # same call under two contexts and without
     ([(False, [dict(callee=1, ctx={"a": 1}), dict(callee=1), dict(callee=1, ctx={"a": 1})], None), (False, [dict(callee=2)], None),
       (False, [], None, True)], {}),
